@@ -1,15 +1,59 @@
+pub mod c01;
 pub mod c15;
 
 use crate::engine::Property;
 
 pub fn by_id(id: &str) -> Option<Box<dyn Property>> {
     Some(match id {
+        "C01" => Box::new(c01::C01),
         "C15" => Box::new(c15::C15),
         _ => return None,
     })
 }
 
 /// auxiliary subcommands used by some checks (fresh-process trials etc.)
-pub fn subcommand(_args: &[String]) -> Option<i32> {
-    None
+pub fn subcommand(args: &[String]) -> Option<i32> {
+    match args[0].as_str() {
+        "selfcheck" => {
+            let rounds = args.get(1).and_then(|s| s.parse().ok()).unwrap_or(50);
+            match crate::realcorpus::self_check(1, rounds) {
+                Ok(()) => {
+                    println!("self-check ok ({rounds} rounds)");
+                    Some(0)
+                }
+                Err(e) => {
+                    eprintln!("{e}");
+                    Some(2)
+                }
+            }
+        }
+        "cfstats" => {
+            use crate::tape::{mix, Tape};
+            let mut hist = std::collections::BTreeMap::<String, u64>::new();
+            let mut non = 0;
+            let n = 4000;
+            for i in 0..n {
+                let bytes: Vec<u8> = (0..300).map(|k| (mix(&[i, k]) & 0xff) as u8).collect();
+                let mut t = Tape::new(&bytes);
+                if let Some(c) = crate::case::make_case(&mut t, &crate::gen::GenOpts::plain()) {
+                    if !c.cf.all_cf {
+                        non += 1;
+                        let mut seen = std::collections::BTreeSet::new();
+                        for r in &c.cf.reasons {
+                            let k = r.split(": ").nth(1).unwrap_or("").chars().take(40).collect::<String>();
+                            if seen.insert(k.clone()) {
+                                *hist.entry(k).or_insert(0) += 1;
+                            }
+                        }
+                        if non < 4 {
+                            println!("{}\n{:?}\n", c.gen.prog.to_text(), c.cf.reasons);
+                        }
+                    }
+                }
+            }
+            println!("non-CF {non}/{n}: {hist:#?}");
+            Some(0)
+        }
+        _ => None,
+    }
 }
